@@ -1011,7 +1011,14 @@ def _save_data_3(data, context):
 def _load_data_3(rec, context):
     result = _load_data_2(rec, context)
     yield result
-    result._key_joins = dict((context.object(k), (context.object(v0), context.object(v1)))
+
+    # In this version of the protocol, each side of a join was a single
+    # component ID, whereas joins are now defined by tuples of component IDs
+    def as_cid_tuple(cids):
+        cids = context.object(cids)
+        return tuple(cids) if isinstance(cids, (tuple, list)) else (cids,)
+
+    result._key_joins = dict((context.object(k), (as_cid_tuple(v0), as_cid_tuple(v1)))
                              for k, v0, v1 in rec['_key_joins'])
 
 
